@@ -57,7 +57,7 @@ class Unit:
         lines = src.split('\n')
         i = 0
         while i < len(lines):
-            mm = re.match(r'^//@h (\{.*\})\s*$', lines[i])
+            mm = re.match(r'^//@[hn] (\{.*\})\s*$', lines[i])
             if mm:
                 meta = json.loads(mm.group(1))
                 j = i + 1
@@ -71,7 +71,11 @@ class Unit:
                     j += 1
                 if not name:
                     raise SystemExit(f'{path}:{i+1}: //@h without fn')
-                self.harnesses.append(Harness(self, name, meta))
+                hh = Harness(self, name, meta)
+                hh.native = lines[i].startswith('//@n')
+                if hh.native:
+                    hh.kind = 'bounded'
+                self.harnesses.append(hh)
             i += 1
 
 
@@ -123,7 +127,7 @@ def weave(repo, units, extra_cfg='kani'):
     woven = []
     # support module (always): needs private field of OpHandle
     sup = os.path.join(HARNESS_DIR, 'support.rs')
-    if os.path.exists(sup):
+    if os.path.exists(sup) and any(not u.filemeta.get('native') for u in units):
         with open(os.path.join(repo, 'src/op/mod.rs'), 'a') as f:
             f.write(f'\n#[cfg({extra_cfg})] #[path = "{sup}"] pub(crate) mod verif_support;\n')
         woven.append('src/op/mod.rs <- support.rs')
@@ -160,7 +164,8 @@ def weave(repo, units, extra_cfg='kani'):
         woven.append(f'{c["file"]}::{c["fn"]} <- contract')
     for u in units:
         path = os.path.join(repo, u.weave)
-        files[path] += f'\n#[cfg({extra_cfg})] #[path = "{u.path}"] mod verif_{u.name};\n'
+        cfg = 'verif_native' if u.filemeta.get('native') else extra_cfg
+        files[path] += f'\n#[cfg({cfg})] #[path = "{u.path}"] mod verif_{u.name};\n'
         woven.append(f'{u.weave} <- {os.path.basename(u.path)}')
     for path, src in files.items():
         open(path, 'w').write(src)
@@ -357,6 +362,27 @@ def native_replay(repo, unit, tests, descs):
     return 'passed-natively', out[-3000:]
 
 
+# ------------------------------------------------------------------ native stand-ins
+
+def run_native(repo, nhs, logpath):
+    cmd = ['cargo', 'test', '--offline', '--lib', 'verif_native_', '--', '--test-threads', '8']
+    env = dict(os.environ, CARGO_NET_OFFLINE='true', CARGO_TERM_COLOR='never', RUSTFLAGS='--cfg verif_native', RUST_BACKTRACE='0')
+    try:
+        out = subprocess.run(cmd, cwd=repo, env=env, stdout=subprocess.PIPE, stderr=subprocess.STDOUT, text=True, timeout=3000).stdout
+    except subprocess.TimeoutExpired:
+        out = 'native run timed out'
+    open(logpath, 'w').write(out)
+    res = {}
+    for m in re.finditer(r'^test (\S+) \.\.\. (ok|FAILED)', out, re.M):
+        res[m.group(1).split('::')[-1]] = m.group(2)
+    return res, 'RUSTFLAGS="--cfg verif_native" ' + ' '.join(cmd), out
+
+
+def native_failure_excerpt(out, name):
+    m = re.search(r'---- \S*' + re.escape(name) + r' stdout ----\n(.*?)(?=\n---- |\nfailures:)', out, re.S)
+    return (m.group(1).strip() if m else 'test failed')[-1500:]
+
+
 # ------------------------------------------------------------------ main
 
 def select(units, prop, tier, only):
@@ -410,9 +436,11 @@ def main(argv):
     seed = int(os.environ.get('VERIF_SEED', '0') or 0)
     t0 = time.time()
     units = load_units()
-    hs = select(units, prop, a.tier, a.only)
+    hs_all = select(units, prop, a.tier, a.only)
+    hs = [h for h in hs_all if not h.native]
+    nhs = [h for h in hs_all if h.native]
     vunits = verus_engine.select(prop, a.tier, a.only)
-    if not hs and not vunits:
+    if not hs and not vunits and not nhs:
         log(f'no obligations registered for {prop} (tier {a.tier})')
         return 2
     os.makedirs(OUT_DIR, exist_ok=True)
@@ -437,9 +465,9 @@ def main(argv):
                 elif r['status'] == 'failed':
                     violations.append(r)
         # ---------------- Kani engine
-        if hs:
+        if hs or nhs:
             need = {}
-            for h in hs:
+            for h in hs + nhs:
                 need[h.unit.name] = h.unit
                 for n in h.unit.needs:
                     need[n] = units[n]
@@ -448,6 +476,7 @@ def main(argv):
             except Undecided as e:
                 undecided.append((e.unit, e.reason))
                 hs = []
+                nhs = []
         if hs:
             jobs = a.jobs or min(12, max(1, len(hs)))
             logpath = os.path.join(OUT_DIR, f'{prop}.{a.tier}.kani.log')
@@ -555,6 +584,34 @@ def main(argv):
                 json.dump(replay, open(rp, 'w'), indent=1)
                 v['replay'] = rp
                 v['native_replay'] = native
+        # ---------------- native bounded stand-ins (real code, concrete enumeration; never counted as proved)
+        if nhs:
+            nres, ncmd, nout = run_native(repo, nhs, os.path.join(OUT_DIR, f'{prop}.{a.tier}.native.log'))
+            for h in nhs:
+                st = nres.get(h.name)
+                rec = {'id': h.id, 'engine': 'native', 'harness': h.fq, 'kind': 'bounded', 'bound': h.bound, 'text': h.text, 'cmd': ncmd}
+                if st == 'ok':
+                    rec['status'] = 'discharged'
+                elif st == 'FAILED':
+                    msg = native_failure_excerpt(nout, h.name)
+                    k = match_known(known, prop, h.id, msg)
+                    if k:
+                        known_hits.append((k, h, k['check']))
+                        rec['status'] = 'known-finding'
+                    else:
+                        rec['status'] = 'failed'
+                        rec['failed_checks'] = [{'description': msg[:600]}]
+                        rp = os.path.join(OUT_DIR, 'replay', f'{prop}.{h.name}.json')
+                        os.makedirs(os.path.dirname(rp), exist_ok=True)
+                        json.dump({'property': prop, 'obligation': h.id, 'harness': h.fq, 'unit': h.unit.name, 'engine': 'native', 'text': h.text,
+                                   'failed_checks': rec['failed_checks'], 'native_replay': 'reproduced', 'native_output': msg, 'replay_cmd': ncmd}, open(rp, 'w'), indent=1)
+                        rec['replay'] = rp
+                        rec['native_replay'] = 'reproduced'
+                        violations.append(rec)
+                else:
+                    rec['status'] = 'undecided'
+                    undecided.append((h.id, 'native stand-in did not build or run: ' + nout[-300:].replace('\n', ' ')))
+                records.append(rec)
     finally:
         if not a.keep:
             shutil.rmtree(scratch, ignore_errors=True)
@@ -660,6 +717,18 @@ def write_evidence(prop, tier, seed, records, complete, bounded, canaries, n_obl
 def do_replay(a):
     rp = json.load(open(a.replay))
     log(f'replay of {rp["obligation"]} ({rp["harness"] if "harness" in rp else rp.get("engine")})')
+    if rp.get('engine') == 'native':
+        units = load_units()
+        u = units[rp['unit']]
+        scratch, repo = make_scratch()
+        try:
+            weave(repo, [u])
+            hs = [h for h in u.harnesses if h.fq == rp['harness']]
+            res, cmd, out = run_native(repo, hs, os.path.join(OUT_DIR, 'replay.native.log'))
+            log(native_failure_excerpt(out, hs[0].name))
+            return 1 if res.get(hs[0].name) == 'FAILED' else 0
+        finally:
+            shutil.rmtree(scratch, ignore_errors=True)
     if not rp.get('playback_tests'):
         log('no counterexample recorded by the verifier; verifier output follows')
         log(rp.get('kani_output') or rp.get('verifier_output') or '')
